@@ -30,6 +30,8 @@ var importMap = map[string][2]string{
 	"context":                          {shimRoot + "vcontext", "context"},
 	"time":                             {shimRoot + "vtime", "time"},
 	"os":                               {shimRoot + "vos", "os"},
+	"path/filepath":                    {shimRoot + "vfilepath", "filepath"},
+	"io/ioutil":                        {shimRoot + "vioutil", "ioutil"},
 	"math/rand":                        {shimRoot + "vrand", "rand"},
 	"github.com/klauspost/compress/s2": {shimRoot + "vs2", "s2"},
 }
